@@ -775,6 +775,9 @@ type c20Tr struct {
 	snaps         []c20Ghost
 	branches      map[string]bool
 	cancelInStart bool
+	bs            int
+	batchLen      int
+	flushDue      bool
 }
 
 func (tr *c20Tr) emit(e string)    { tr.events = append(tr.events, e) }
@@ -875,6 +878,8 @@ func (tr *c20Tr) startReset(nw []c20Key) {
 	tr.counted = false
 	tr.hasKeys = nil
 	tr.batchOpen = false
+	tr.batchLen = 0
+	tr.flushDue = false
 }
 
 func (tr *c20Tr) onRaw(ev c20Raw) {
@@ -991,7 +996,14 @@ func (tr *c20Tr) onReset(ev c20Raw) {
 				tr.branches["alt-blind"] = true
 			}
 			tr.hasKeys = nil
-			tr.emit("EAltWrite " + tr.coqIDs(c))
+			src := "false"
+			if tr.flushDue && !tr.counted {
+				src = "true"
+				tr.flushDue = false
+				tr.batchLen = 0
+				tr.branches["alt-batch-flush"] = true
+			}
+			tr.emit("EAltWrite " + src + " " + tr.coqIDs(c))
 		case "query":
 			if tr.batchOpen { // emptySharedAltDs: the teardown of an aborted reset begins
 				tr.emit("EAbort")
@@ -1094,6 +1106,7 @@ type c20ResetCfg struct {
 	postPut    []c20Key
 	finalClose bool
 	hazard     string
+	putOnly    string // if set: concurrent puts only at gates whose description starts with it, all at once
 }
 
 type c20ResetOut struct {
@@ -1175,7 +1188,7 @@ func c20RunReset(t *testing.T, r *vfRand, pool []c20Key, ids map[string]int, cfg
 		if _, err := rks.Size(bg); err != nil {
 			panic(err)
 		}
-		tr := &c20Tr{store: store, pb: cfg.pb, byDsKey: map[string]int{}, pool: pool, phase: "idle", branches: out.branches}
+		tr := &c20Tr{store: store, pb: cfg.pb, bs: cfg.bs, byDsKey: map[string]int{}, pool: pool, phase: "idle", branches: out.branches}
 		for _, k := range pool {
 			tr.byDsKey[dsKey(keyspace.MhToBit256(k.h), cfg.pb).String()] = k.id
 		}
@@ -1326,7 +1339,15 @@ func c20RunReset(t *testing.T, r *vfRand, pool []c20Key, ids map[string]int, cfg
 					out.branches["close-during-reset"] = true
 				}
 				opp++
-				for len(conc) > 0 && r.Chance(cfg.pPut) && !closed {
+				if cfg.putOnly != "" {
+					gmu.Lock()
+					at := parked != nil && strings.HasPrefix(*parked, cfg.putOnly)
+					gmu.Unlock()
+					if !at {
+						return
+					}
+				}
+				for len(conc) > 0 && (cfg.putOnly != "" || r.Chance(cfg.pPut)) && !closed {
 					p := put(conc[0])
 					conc = conc[1:]
 					select {
@@ -1359,34 +1380,47 @@ func c20RunReset(t *testing.T, r *vfRand, pool []c20Key, ids map[string]int, cfg
 				if finished {
 					break
 				}
-				store.mu.Lock()
-				keyAt := len(tr.events)
-				tr.emit("EKey")
-				store.mu.Unlock()
 				sent := false
 				for tries := 0; !sent && !finished; tries++ {
+					if tries > 10000 {
+						panic("c20: ResetCids neither receives a key nor returns")
+					}
+					synctest.Wait()
+					poll()
+					if finished {
+						break
+					}
+					if isParked() {
+						opportunity()
+						doRelease()
+						continue
+					}
+					// ResetCids is durably blocked and not at a gate: in its select, ready to receive
+					store.mu.Lock()
+					keyAt := len(tr.events)
+					tr.emit("EKey")
+					tr.batchLen++
+					due := tr.flushDue
+					if tr.batchLen >= tr.bs {
+						tr.flushDue = true
+					}
+					store.mu.Unlock()
 					select {
 					case ch <- cid.NewCidV1(cid.Raw, nw[i].h):
 						sent = true
 					case rerr = <-done:
 						finished = true
 					default:
-						// ResetCids is not waiting for a key: it is parked at a gate or on its way out
-						if tries > 10000 {
-							panic("c20: ResetCids neither receives a key nor returns")
-						}
-						synctest.Wait()
-						if isParked() {
-							opportunity()
-							doRelease()
-							synctest.Wait()
-						}
+					}
+					if !sent {
+						store.mu.Lock()
+						tr.events = append(tr.events[:keyAt:keyAt], tr.events[keyAt+1:]...)
+						tr.batchLen--
+						tr.flushDue = due
+						store.mu.Unlock()
 					}
 				}
 				if !sent {
-					store.mu.Lock()
-					tr.events = append(tr.events[:keyAt:keyAt], tr.events[keyAt+1:]...)
-					store.mu.Unlock()
 					break
 				}
 				settle()
@@ -1397,6 +1431,11 @@ func c20RunReset(t *testing.T, r *vfRand, pool []c20Key, ids map[string]int, cfg
 					time.Sleep(150 * time.Millisecond)
 					settle()
 				}
+				store.mu.Lock()
+				if tr.batchLen > 0 {
+					tr.flushDue = true
+				}
+				store.mu.Unlock()
 				close(ch)
 				settle()
 			}
@@ -1662,6 +1701,20 @@ func c20ResetCase(t *testing.T, cs *vfCases, r *vfRand, i int, seed uint64) {
 		cfg.postPut = distinct(1 + r.Intn(3))
 	}
 	cfg.finalClose = r.Chance(50)
+	// three directed scenarios at fixed case numbers, so that every run meets them
+	switch i {
+	case 2: // the same key put twice between phase B and the final drain
+		k := pool[0]
+		cfg.conc = [][]c20Key{{k}, {k, pool[1]}}
+		cfg.putOnly, cfg.fault, cfg.cancelAt, cfg.closeAt, cfg.hazard = "query", "", -1, -1, "dup-buffered"
+		if cfg.bs < 2 {
+			cfg.bs = 2
+		}
+	case 5: // the marker write fails
+		cfg.fault, cfg.cancelAt, cfg.closeAt = "marker-put", -1, -1
+	case 8: // the caller gives up while the worker prepares the alternate slot
+		cfg.fault, cfg.cancelAt, cfg.closeAt = "", 0, -1
+	}
 
 	out := c20RunReset(t, r, pool, ids, cfg)
 	if out.branches["fault-marker-put"] {
